@@ -218,8 +218,19 @@ func genExtraAPI(pkgs map[string]*types.Package) (string, int) {
 		alias := "gocvss" + d
 		emit := func(fn *types.Func, recv string) {
 			sig := fn.Type().(*types.Signature)
-			if sig.Variadic() || sig.TypeParams() != nil {
+			if sig.TypeParams() != nil {
 				return
+			}
+			if sig.Variadic() {
+				// only ...string: a few strings, spread
+				last := sig.Params().At(sig.Params().Len() - 1).Type()
+				sl, isS := last.(*types.Slice)
+				if !isS {
+					return
+				}
+				if eb, isB := sl.Elem().(*types.Basic); !isB || eb.Kind() != types.String {
+					return
+				}
 			}
 			var args, kinds []string
 			need := map[string]bool{}
@@ -239,6 +250,9 @@ func genExtraAPI(pkgs map[string]*types.Package) (string, int) {
 				c, kind, ok := basicConv(sig.Params().At(i).Type(), fmt.Sprintf("a[%d]", i), need)
 				if !ok {
 					return
+				}
+				if sig.Variadic() && i == sig.Params().Len()-1 {
+					c, kind = c+"...", "vstrs"
 				}
 				args = append(args, c)
 				kinds = append(kinds, kind)
